@@ -134,8 +134,8 @@ impl Fq2 {
             });
         }
 
-        let c1 = Fq::from_slice(&s[..32]).unwrap();
-        let c0 = Fq::from_slice(&s[32..]).unwrap();
+        let c1 = Fq::from_slice(&s[..32]).ok_or(Error::NotMember)?;
+        let c0 = Fq::from_slice(&s[32..]).ok_or(Error::NotMember)?;
 
         Ok(Fq2 { c0, c1 })
     }
